@@ -450,6 +450,8 @@ class ExprMixin:
             if isinstance(r, VOpt) and not isinstance(l, VOpt):
                 return self.land(self.lnot(r.none), self.identical(l, r.val))
             return self.lor(self.land(l.none, r.none), self.land(self.lnot(l.none), self.lnot(r.none), self.identical(l.val, r.val)))
+        if isinstance(l, VStruct) and isinstance(r, VStruct):
+            return l is r or l.oid == r.oid        # the same object, possibly seen in two states (entry snapshot / now)
         if isinstance(l, (VStruct, VBox)) or isinstance(r, (VStruct, VBox)):
             return l is r
         if isinstance(l, VObj) and isinstance(r, VObj):
@@ -543,6 +545,12 @@ class ExprMixin:
         if isinstance(t, str):
             t = z3.StringVal(t)
         n = z3.Length(t)
+        if isinstance(lo, int) and not isinstance(lo, bool) and lo >= 0 and hi is None:
+            # s[k:] with a literal k: one canonical term wherever it is written (code or contract text, under a quantifier or not)
+            empty = z3.StringVal('') if z3.is_string(t) else z3.Empty(t.sort())
+            sub = z3.SubString(t, lo, n - lo) if z3.is_string(t) else z3.SubSeq(t, z3.IntVal(lo), n - lo)
+            res = sub if lo == 0 else z3.If(n >= lo, sub, empty)
+            return VBox(kind, res, base.esort) if kind else res
         l = z3.IntVal(0) if lo is None else self.norm_index(lo, n)
         h = n if hi is None else self.norm_index(hi, n)
         ln = z3.If(h - l < 0, z3.IntVal(0), h - l)
@@ -553,6 +561,8 @@ class ExprMixin:
     def index(self, base, idx, node=None):
         if isinstance(idx, VOpt):
             idx = self.unwrap(idx, node)
+        if isinstance(base, VStruct) and base.pycls is not None and '__getitem__' in _mro_dict(base.pycls):
+            return self.call_method(base, '__getitem__', [idx], {}, node)
         if isinstance(base, PyDict):
             if is_sym(idx):
                 keys = list(base.d)
